@@ -10,7 +10,8 @@
     REGISTER / CALL / CANCEL (Router/DealerExamples.v). *)
 From Nexus Require Import Router.Realm Router.DealerLib Router.DealerProofs Router.DealerReg
      Router.DealerCall Router.DealerWfCalls Router.DealerWf Router.DealerReply Router.DealerTimers
-     Router.DealerExamples.
+     Router.DealerExamples Router.DealerTrace Router.DealerDisclose Router.DealerForward.
+From Coq Require Import Relations.
 
 (** ** CANCEL by the owner of a pending, not yet cancelled call *)
 
@@ -154,8 +155,9 @@ Qed.
 (** ** Timeouts *)
 
 (** The INVOCATION of a first chunk carries [timeout] iff the CALL's timeout is
-    positive, the callee announced call_timeout and the registration asked
-    forward_timeout; then no timer is armed.  Otherwise a positive timeout arms
+    positive, the callee announced call_timeout and THIS callee asked for
+    forward_timeout when it registered ([reg_forwards r callee_id], per callee
+    of a shared registration); then no timer is armed.  Otherwise a positive timeout arms
     exactly one timer, due at now + timeout. *)
 Theorem timeout_forwarded_iff : forall cfg now d caller req opts proc r callee_id next callee,
     let cid := (s_id caller, req) in
@@ -164,7 +166,7 @@ Theorem timeout_forwarded_iff : forall cfg now d caller req opts proc r callee_i
     let d' := call_first_state now d cid opts r callee_id next callee in
     let inv := first_inv d cid callee_id callee r opts in
     (dget det "timeout" <> None <->
-       ((0 < tmo)%Z /\ sess_feature callee "callee" f_call_timeout = true /\ reg_fwd_timeout r = true)) /\
+       ((0 < tmo)%Z /\ sess_feature callee "callee" f_call_timeout = true /\ reg_forwards r callee_id = true)) /\
     (dget det "timeout" <> None ->
        dget det "timeout" = Some (VInt KInt64 tmo) /\ d_timers d' = d_timers d /\ inv_timer inv = None) /\
     (dget det "timeout" = None -> (0 < tmo)%Z ->
@@ -239,3 +241,61 @@ Proof.
   - apply timeout_never_early. vm_compute. intros tid dl cid [E|[]]. inversion E. reflexivity.
   - vm_compute. split; reflexivity.
 Qed.
+
+(** ** forward_timeout is the callee's own
+    Along every history of dealer steps, every member [sid] of
+    [reg_fwd_timeout r] is a callee of [r], listed once, and justified
+    ([J rid sid]); a step extends the justification only by "[sid] itself sent
+    a REGISTER with forward_timeout = true that was answered REGISTERED rid".
+    In a fresh realm nobody is listed. *)
+Theorem forward_flag_is_callees_own : forall a b,
+    clos_refl_trans _ fj_step a b -> forward_own (snd a) (fst a) -> forward_own (snd b) (fst b).
+Proof. exact forward_flag_is_callees_own_proof. Qed.
+Print Assumptions forward_flag_is_callees_own.
+
+Theorem forward_witness : forall d J d' J' rid sid,
+    fj_step (d, J) (d', J') -> J' rid sid ->
+    J rid sid \/
+    exists cfg callee req opts proc,
+      sid = s_id callee /\ opt_bool opts "forward_timeout" = true /\
+      snd (fst (register cfg d callee req opts proc)) = [(sid, RRegistered req rid)].
+Proof. exact fj_step_witness. Qed.
+Print Assumptions forward_witness.
+
+Theorem forward_init : forall cfg, forward_own (fun _ _ => False) (r_dealer (init_realm cfg)).
+Proof. exact init_forward_own. Qed.
+Print Assumptions forward_init.
+
+(** a callee that joins a shared registration without forward_timeout does not
+    inherit it from the creator (or anybody else); one that joins with it is
+    the only one added *)
+Theorem joining_does_not_inherit_forward : forall cfg lookup J d callee req opts proc r d' mps,
+    dealer_wf lookup d -> forward_own J d ->
+    reg_lookup d (opt_string opts "match") proc = Some r ->
+    register cfg d callee req opts proc = (d', [(s_id callee, RRegistered req (reg_id r))], mps) ->
+    exists r', nget (d_regs d') (reg_id r) = Some r' /\
+               reg_callees r' = reg_callees r ++ [s_id callee] /\
+               reg_fwd_timeout r' = (if opt_bool opts "forward_timeout" then reg_fwd_timeout r ++ [s_id callee] else reg_fwd_timeout r) /\
+               (opt_bool opts "forward_timeout" = false -> reg_forwards r' (s_id callee) = false) /\
+               (forall x, x <> s_id callee -> reg_forwards r' x = reg_forwards r x).
+Proof. exact joining_does_not_inherit_forward_proof. Qed.
+Print Assumptions joining_does_not_inherit_forward.
+
+(** 11 and 30 both announce call_timeout; only 11 asked for forward_timeout *)
+Example joining_forward_ex :
+    option_map (fun r => (reg_callees r, reg_fwd_timeout r)) (nget (d_regs fx2) 24) = Some ([11; 30], [11]) /\
+    inv_timeout_key fcx1 = Some (11, Some (VInt KInt64 100)) /\ d_timers (call_state fcx1 fx2) = [] /\
+    inv_timeout_key fcx2 = Some (30, None) /\ d_timers (call_state fcx2 (call_state fcx1 fx2)) = [(1, (106, (10, 8)))] /\
+    option_map (fun r => (reg_callees r, reg_fwd_timeout r)) (nget (d_regs fy2) 24) = Some ([30; 11], [11]) /\
+    inv_timeout_key fcy1 = Some (30, None) /\ d_timers (call_state fcy1 fy2) = [(1, (105, (10, 7)))] /\
+    inv_timeout_key fcy2 = Some (11, Some (VInt KInt64 100)) /\
+    d_timers (call_state fcy2 (call_state fcy1 fy2)) = [(1, (105, (10, 7)))] /\
+    option_map (fun r => (reg_callees r, reg_fwd_timeout r)) (nget (d_regs (fst (fst (unregister fx2 11 9 24)))) 24) = Some ([30], []).
+Proof. exact joining_does_not_inherit_forward_ex. Qed.
+
+Example joining_forward_hyps_ex :
+    dealer_wf lkx fx1 /\ forward_own (fun _ _ => True) fx1 /\
+    (exists r mps, reg_lookup fx1 (opt_string rr_opts "match") "com.t" = Some r /\ reg_fwd_timeout r = [11] /\
+                   register cfg0 fx1 s30 2 rr_opts "com.t" = (fx2, [(s_id s30, RRegistered 2 (reg_id r))], mps)) /\
+    opt_bool rr_opts "forward_timeout" = false.
+Proof. exact joining_forward_hypotheses_ex. Qed.
